@@ -10,6 +10,7 @@ import (
 	"fmt"
 	"go/ast"
 	"go/token"
+	"regexp"
 	"strconv"
 	"strings"
 )
@@ -148,9 +149,16 @@ func sigAlgTable() string {
 	if len(fd.Body.List) != 4 {
 		panic(bail{fmt.Sprintf("%s: VerifySignature has %d top-level statements, expected 4 (hash; if err; switch; return nil)", rel, len(fd.Body.List))})
 	}
-	if src(fd.Body.List[0]) != "hash, hashType, err := generateHash(sig.Algorithm.Hash, data)" {
+	ps := sigParamNames(fd)
+	if len(ps) != 3 {
+		panic(bail{rel + ": VerifySignature no longer has three parameters (key, data, signature)"})
+	}
+	pub, data, sigP := ps[0], ps[1], ps[2]
+	pm := regexp.MustCompile(`^(\w+), (\w+), err := generateHash\(` + regexp.QuoteMeta(sigP) + `\.Algorithm\.Hash, ` + regexp.QuoteMeta(data) + `\)$`).FindStringSubmatch(src(fd.Body.List[0]))
+	if pm == nil {
 		panic(bail{rel + ": VerifySignature prologue changed: " + src(fd.Body.List[0])})
 	}
+	hashV, hashTypeV := pm[1], pm[2]
 	if is, ok := fd.Body.List[1].(*ast.IfStmt); !ok || src(is.Cond) != "err != nil" || !returnsNonNilError(is.Body) {
 		panic(bail{rel + ": VerifySignature does not return generateHash's error"})
 	}
@@ -158,7 +166,7 @@ func sigAlgTable() string {
 		panic(bail{rel + ": VerifySignature does not end in `return nil`"})
 	}
 	sw, ok := fd.Body.List[2].(*ast.SwitchStmt)
-	if !ok || src(sw.Tag) != "sig.Algorithm.Signature" {
+	if !ok || src(sw.Tag) != sigP+".Algorithm.Signature" {
 		panic(bail{rel + ": third statement of VerifySignature is not `switch sig.Algorithm.Signature`"})
 	}
 	var rows, defs, disp, exDisp []string
@@ -180,7 +188,7 @@ func sigAlgTable() string {
 		if !ok {
 			panic(bail{rel + ": unknown SignatureAlgorithm constant " + name})
 		}
-		kind, der, trailingIgnored, exact, prim, rejectLean := sigCase(rel, name, cc.Body)
+		kind, der, trailingIgnored, exact, prim, rejectLean := sigCase(rel, name, cc.Body, pub, sigP, hashV, hashTypeV)
 		rows = append(rows, fmt.Sprintf("(%d, %q, %v, %v, %q)", code, kind, der, trailingIgnored, prim))
 		if der {
 			disp = append(disp, fmt.Sprintf("  | %d => sigReject%s r s\n", code, name))
@@ -195,130 +203,90 @@ func sigAlgTable() string {
 		fmt.Sprintf("\n/-- does the case for wire code `code` insist that the octets before `rest` are exactly the DER encoding of (r, s)\n(`if err := checkExactDER(sig.Signature, rest, x); err != nil { return … }`)? -/\ndef sigExactDER (code : Nat) : Bool :=\n  match code with\n%s  | _ => false\n", strings.Join(exDisp, ""))
 }
 
-// sigCase matches one case body of VerifySignature's switch against the two shapes the model interprets.
-func sigCase(rel, name string, body []ast.Stmt) (kind string, der, trailingIgnored, exact bool, prim, rejectLean string) {
-	fail := func(s ast.Stmt, why string) {
-		panic(bail{fmt.Sprintf("%s: VerifySignature case %s: %s: %s", rel, name, why, src(s))})
+// sigCase reads one case body of VerifySignature's switch.  Locals may have any name, the (r, s) route may sit in a
+// same-file helper (`v, err := helper(…, sig.Signature)`), checks between the unmarshalling and the primitive may come in
+// any order; what is recognised is listed in the patterns below, anything else aborts.
+func sigCase(rel, name string, body []ast.Stmt, pub, sig, hash, hashType string) (kind string, der, trailingIgnored, exact bool, prim, rejectLean string) {
+	failT := func(t, why string) {
+		panic(bail{fmt.Sprintf("%s: VerifySignature case %s: %s: %s", rel, name, why, t)})
 	}
-	keyVar, pairVar := "", ""
+	q := regexp.QuoteMeta
+	stmts := expandHelpers(rel, body)
 	rejectLean = "false"
-	i := 0
-	next := func() ast.Stmt {
-		if i >= len(body) {
-			panic(bail{fmt.Sprintf("%s: VerifySignature case %s ends early", rel, name)})
-		}
-		s := body[i]
-		i++
-		return s
-	}
-	// 1. key type assertion
-	s := next()
-	a, ok := s.(*ast.AssignStmt)
-	if !ok || len(a.Lhs) != 2 || len(a.Rhs) != 1 || src(a.Lhs[1]) != "ok" {
-		fail(s, "expected `k, ok := pubKey.(*T)`")
-	}
-	ta, ok := a.Rhs[0].(*ast.TypeAssertExpr)
-	if !ok || src(ta.X) != "pubKey" {
-		fail(s, "expected a type assertion on pubKey")
-	}
-	kind, ok = keyKindOf[src(ta.Type)]
-	if !ok {
-		fail(s, "unknown key type")
-	}
-	keyVar = src(a.Lhs[0])
-	s = next()
-	if is, ok := s.(*ast.IfStmt); !ok || src(is.Cond) != "!ok" || is.Init != nil || !returnsNonNilError(is.Body) {
-		fail(s, "expected `if !ok { return error }`")
-	}
-	// 2. either the raw-signature primitive or the (r,s) route
-	s = next()
-	if is, ok := s.(*ast.IfStmt); ok && is.Init != nil {
-		ia, ok := is.Init.(*ast.AssignStmt)
-		if !ok || len(ia.Rhs) != 1 || src(is.Cond) != "err != nil" || !returnsNonNilError(is.Body) {
-			fail(s, "expected `if err := P(key, hashType, hash, sig.Signature); err != nil { return error }`")
-		}
-		call, ok := ia.Rhs[0].(*ast.CallExpr)
-		if !ok || len(call.Args) != 4 || src(call.Args[0]) != keyVar || src(call.Args[1]) != "hashType" || src(call.Args[2]) != "hash" || src(call.Args[3]) != "sig.Signature" {
-			fail(s, "primitive is not called on (key, hashType, hash, sig.Signature)")
-		}
-		prim = src(call.Fun)
-		if i != len(body) {
-			fail(body[i], "unexpected statement after the primitive")
-		}
-		return kind, false, false, false, prim, rejectLean
-	}
-	ds, ok := s.(*ast.DeclStmt)
-	if !ok {
-		fail(s, "expected `var x dsaSig`")
-	}
-	gd := ds.Decl.(*ast.GenDecl)
-	vs, ok := gd.Specs[0].(*ast.ValueSpec)
-	if !ok || len(gd.Specs) != 1 || len(vs.Names) != 1 || vs.Type == nil || src(vs.Type) != "dsaSig" || len(vs.Values) != 0 {
-		fail(s, "expected `var x dsaSig`")
-	}
-	pairVar = vs.Names[0].Name
-	der = true
-	s = next()
-	a, ok = s.(*ast.AssignStmt)
-	if !ok || src(s) != "rest, err := asn1.Unmarshal(sig.Signature, &"+pairVar+")" {
-		fail(s, "expected `rest, err := asn1.Unmarshal(sig.Signature, &"+pairVar+")`")
-	}
-	s = next()
-	if is, ok := s.(*ast.IfStmt); !ok || src(is.Cond) != "err != nil" || is.Init != nil || !returnsNonNilError(is.Body) {
-		fail(s, "expected `if err != nil { return error }`")
-	}
-	s = next()
-	if is, ok := s.(*ast.IfStmt); ok && src(is.Cond) == "len(rest) != 0" {
-		if onlyLogging(is.Body) && is.Else == nil {
-			trailingIgnored = true
-		} else if returnsNonNilError(is.Body) {
-			trailingIgnored = false
-		} else {
-			fail(s, "unrecognised handling of trailing bytes")
-		}
-		s = next()
-	} else {
-		trailingIgnored = true
-	}
-	// optional rejection condition on (r, s)
-	if is, ok := s.(*ast.IfStmt); ok && is.Init == nil && strings.Contains(src(is.Cond), ".Sign()") {
-		if !returnsNonNilError(is.Body) || is.Else != nil {
-			fail(s, "sign check does not return an error")
-		}
-		t := &tr{sp: Spec{Kind: "i64", Repl: map[string]string{
-			pairVar + ".R.Sign()": "(Int.sign r)", pairVar + ".S.Sign()": "(Int.sign s)"}}}
-		rejectLean = t.expr(is.Cond)
-		s = next()
-	}
-	// optional exactness check (the fix proposed for the C05 finding)
-	if is, ok := s.(*ast.IfStmt); ok && is.Init != nil && strings.HasPrefix(src(is.Init), "err := checkExactDER(") {
-		if src(is.Init) != "err := checkExactDER(sig.Signature, rest, "+pairVar+")" || src(is.Cond) != "err != nil" || !returnsNonNilError(is.Body) || is.Else != nil {
-			fail(s, "unrecognised exactness check")
-		}
-		fb := src(mustFunc(rel, "checkExactDER").Body)
-		for _, need := range []string{"want, err := asn1.Marshal(sig)", "!bytes.Equal(want, encoded[:len(encoded)-len(rest)])"} {
-			if !strings.Contains(fb, need) {
-				panic(bail{rel + ": checkExactDER no longer contains `" + need + "`"})
+	trailingIgnored = true
+	keyVar, pairVar, restVar := "", "", ""
+	stage := 0 // 0 before the assertion, 1 after it, 2 after the unmarshalling, 3 after the primitive
+	reAssert := regexp.MustCompile(`^(\w+), ok := ` + q(pub) + `\.\((.+)\)$`)
+	reVar := regexp.MustCompile(`^var (\w+) dsaSig$`)
+	reUnm := regexp.MustCompile(`^(\w+), err := asn1\.Unmarshal\(` + q(sig) + `\.Signature, &(\w+)\)$`)
+	for _, st := range stmts {
+		t := src(st)
+		is, isIf := st.(*ast.IfStmt)
+		switch {
+		case stage == 0 && reAssert.MatchString(t):
+			m := reAssert.FindStringSubmatch(t)
+			k, ok := keyKindOf[m[2]]
+			if !ok {
+				failT(t, "unknown key type")
 			}
+			keyVar, kind, stage = m[1], k, 1
+		case stage == 1 && keyVar != "" && isIf && is.Init == nil && src(is.Cond) == "!ok" && returnsNonNilError(is.Body):
+		case stage == 1 && reVar.MatchString(t):
+			pairVar = reVar.FindStringSubmatch(t)[1]
+		case stage == 1 && reUnm.MatchString(t):
+			m := reUnm.FindStringSubmatch(t)
+			if pairVar == "" || m[2] != pairVar {
+				failT(t, "asn1.Unmarshal does not fill a dsaSig variable")
+			}
+			restVar, der, stage = m[1], true, 2
+		case isIf && is.Init == nil && src(is.Cond) == "err != nil" && returnsNonNilError(is.Body) && is.Else == nil:
+			// the error of the preceding call is returned
+		case stage == 2 && isIf && is.Init == nil && src(is.Cond) == "len("+restVar+") != 0":
+			if onlyLogging(is.Body) && is.Else == nil {
+				trailingIgnored = true
+			} else if returnsNonNilError(is.Body) {
+				trailingIgnored = false
+			} else {
+				failT(t, "unrecognised handling of trailing bytes")
+			}
+		case stage == 2 && isIf && is.Init == nil && strings.Contains(src(is.Cond), ".Sign()") && !strings.Contains(src(is.Cond), "("+keyVar+","):
+			if !returnsNonNilError(is.Body) || is.Else != nil {
+				failT(t, "sign check does not return an error")
+			}
+			tr := &tr{sp: Spec{Kind: "i64", Repl: map[string]string{pairVar + ".R.Sign()": "(Int.sign r)", pairVar + ".S.Sign()": "(Int.sign s)"}}}
+			rejectLean = tr.expr(is.Cond)
+		case stage == 2 && isIf && is.Init != nil && strings.Contains(src(is.Init), "checkExactDER("):
+			if src(is.Init) != "err := checkExactDER("+sig+".Signature, "+restVar+", "+pairVar+")" || src(is.Cond) != "err != nil" || !returnsNonNilError(is.Body) || is.Else != nil {
+				failT(t, "unrecognised exactness check")
+			}
+			fb := src(mustFunc(rel, "checkExactDER").Body)
+			for _, need := range []string{"asn1.Marshal(", "bytes.Equal("} {
+				if !strings.Contains(fb, need) {
+					panic(bail{rel + ": checkExactDER no longer contains `" + need + "`"})
+				}
+			}
+			exact = true
+		case stage == 2 && isIf && is.Init == nil && is.Else == nil && returnsNonNilError(is.Body):
+			m := regexp.MustCompile(`^!(\S+)\(` + q(keyVar) + `, ` + q(hash) + `, ` + q(pairVar) + `\.R, ` + q(pairVar) + `\.S\)$`).FindStringSubmatch(src(is.Cond))
+			if m == nil {
+				failT(t, "expected `if !P.Verify(key, hash, r, s) { return error }`")
+			}
+			prim, stage = m[1], 3
+		case stage == 1 && isIf && is.Init != nil && src(is.Cond) == "err != nil" && returnsNonNilError(is.Body):
+			m := regexp.MustCompile(`^err := (\S+)\(` + q(keyVar) + `, ` + q(hashType) + `, ` + q(hash) + `, ` + q(sig) + `\.Signature\)$`).FindStringSubmatch(src(is.Init))
+			if m == nil {
+				failT(t, "primitive is not called on (key, hashType, hash, sig.Signature)")
+			}
+			prim, stage = m[1], 3
+		default:
+			failT(t, "unrecognised statement")
 		}
-		exact = true
-		s = next()
 	}
-	is, ok := s.(*ast.IfStmt)
-	if !ok || is.Init != nil || !returnsNonNilError(is.Body) || is.Else != nil {
-		fail(s, "expected `if !P.Verify(key, hash, r, s) { return error }`")
+	if stage != 3 || kind == "" {
+		panic(bail{fmt.Sprintf("%s: VerifySignature case %s does not end in a primitive call", rel, name)})
 	}
-	u, ok := is.Cond.(*ast.UnaryExpr)
-	if !ok || u.Op != token.NOT {
-		fail(s, "expected a negated primitive call")
-	}
-	call, ok := u.X.(*ast.CallExpr)
-	if !ok || len(call.Args) != 4 || src(call.Args[0]) != keyVar || src(call.Args[1]) != "hash" || src(call.Args[2]) != pairVar+".R" || src(call.Args[3]) != pairVar+".S" {
-		fail(s, "primitive is not called on (key, hash, R, S)")
-	}
-	prim = src(call.Fun)
-	if i != len(body) {
-		fail(body[i], "unexpected statement after the primitive")
+	if !der {
+		trailingIgnored = false
 	}
 	return
 }
@@ -354,17 +322,46 @@ func newVerifierPolicy() string {
 		panic(bail{fmt.Sprintf("%s: NewSignatureVerifier has %d top-level statements, expected 2", rel, len(fd.Body.List))})
 	}
 	ts, ok := fd.Body.List[0].(*ast.TypeSwitchStmt)
-	if !ok || src(ts.Assign) != "pkType := pk.(type)" {
-		panic(bail{rel + ": NewSignatureVerifier does not start with `switch pkType := pk.(type)`"})
+	pn := sigParamNames(fd)
+	var tm []string
+	if ok {
+		tm = regexp.MustCompile(`^(\w+) := (\w+)\.\(type\)$`).FindStringSubmatch(src(ts.Assign))
 	}
+	if !ok || tm == nil || len(pn) != 1 || tm[2] != pn[0] {
+		panic(bail{rel + ": NewSignatureVerifier does not start with a type switch on its parameter"})
+	}
+	kv, pv := tm[1], tm[2] // the typed key inside a case, the parameter
 	tail := fd.Body.List[1:]
 	sp := Spec{Kind: "i64", Ret: "errlast", Ignore: []string{"log."}, Repl: map[string]string{
-		"pkType.N.BitLen()":                      "bits",
-		"params != *elliptic.P256().Params()":    "(!isP256)",
-		"!AllowVerificationWithNonCompliantKeys": "(!allow)",
-		"AllowVerificationWithNonCompliantKeys":  "allow",
-		"&SignatureVerifier{PubKey: pk}":         "()",
+		kv + ".N.BitLen()":                                     "bits",
+		"(" + kv + ".N.BitLen())":                              "bits",
+		"(*(" + kv + ".Params())) != (*elliptic.P256().Params())": "(!isP256)",
+		"(*(" + kv + ".Params())) != *elliptic.P256().Params()":   "(!isP256)",
+		"*(" + kv + ".Params()) != *elliptic.P256().Params()":     "(!isP256)",
+		"!AllowVerificationWithNonCompliantKeys":                 "(!allow)",
+		"AllowVerificationWithNonCompliantKeys":                  "allow",
+		"&SignatureVerifier{PubKey: " + pv + "}":                 "()",
 	}}
+	// named integer constants of the file stand for their values
+	for _, d := range parseFile(rp(rel)).Decls {
+		if gd, ok := d.(*ast.GenDecl); ok && gd.Tok == token.CONST {
+			for _, sp0 := range gd.Specs {
+				vs := sp0.(*ast.ValueSpec)
+				for i, n := range vs.Names {
+					if i < len(vs.Values) {
+						if v, ok := intLit(vs.Values[i]); ok {
+							sp.Repl[n.Name] = "(" + v + " : Int)"
+						}
+					}
+				}
+			}
+		}
+	}
+	// locals that only name a read of the key (`bits := key.N.BitLen()`, `params := *(key.Params())`, `p256 := *elliptic.P256().Params()`)
+	pureRead := func(e ast.Expr) bool {
+		t := src(e)
+		return !strings.HasPrefix(t, "fmt.") && !strings.HasPrefix(t, "errors.") && (strings.Contains(t, kv+".") || strings.Contains(t, "elliptic."))
+	}
 	// statements that only build the error value or copy the curve parameters are not part of the decision
 	var strip func(b []ast.Stmt) []ast.Stmt
 	strip = func(b []ast.Stmt) []ast.Stmt {
@@ -374,7 +371,7 @@ func newVerifierPolicy() string {
 			case *ast.AssignStmt:
 				if len(x.Rhs) == 1 {
 					r := src(x.Rhs[0])
-					if strings.HasPrefix(r, "fmt.Errorf(") || r == "*(pkType.Params())" {
+					if strings.HasPrefix(r, "fmt.Errorf(") || strings.HasPrefix(r, "errors.New(") {
 						continue
 					}
 				}
@@ -417,7 +414,7 @@ func newVerifierPolicy() string {
 		kinds = append(kinds, strconv.Quote(kind))
 		nvDisp = append(nvDisp, fmt.Sprintf("  if kind = %q then newVerifier_%s bits isP256 allow else\n", kind, kind))
 		t := &tr{sp: sp}
-		body := t.block(append(strip(cc.Body), tail...), "none", "  ")
+		body := t.block(append(strip(inlineAliases(cc.Body, pureRead)), tail...), "none", "  ")
 		params := "(bits : Int) (isP256 allow : Bool)"
 		fmt.Fprintf(&sb, "/-- generated from %s func NewSignatureVerifier, case %s (`some ()` = a verifier is returned) -/\ndef newVerifier_%s %s : Option Unit :=\n  %s\n\n", rel, src(cc.List[0]), kind, params, body)
 	}
@@ -524,17 +521,23 @@ func verifyWrappers() string {
 		if len(fd.Body.List) != len(want) {
 			panic(bail{fmt.Sprintf("%s: %s has %d statements, expected %d", rel, fn, len(fd.Body.List), len(want))})
 		}
+		data := ""
 		for i, w := range want {
-			if got := src(fd.Body.List[i]); got != w {
+			got := src(fd.Body.List[i])
+			m := regexp.MustCompile("^" + strings.ReplaceAll(regexp.QuoteMeta(w), "DATA", `(\w+)`) + "$").FindStringSubmatch(got)
+			if m == nil || (len(m) > 1 && data != "" && m[1] != data) {
 				panic(bail{fmt.Sprintf("%s: %s statement %d is `%s`, expected `%s`", rel, fn, i+1, got, w)})
+			}
+			if len(m) > 1 {
+				data = m[1]
 			}
 		}
 	}
 	check("VerifySignature", []string{"return tls.VerifySignature(s.PubKey, data, sig)"})
-	check("VerifySCTSignature", []string{"sctData, err := SerializeSCTSignatureInput(sct, entry)", "if err != nil { return err }",
-		"return s.VerifySignature(sctData, tls.DigitallySigned(sct.Signature))"})
-	check("VerifySTHSignature", []string{"sthData, err := SerializeSTHSignatureInput(sth)", "if err != nil { return err }",
-		"return s.VerifySignature(sthData, tls.DigitallySigned(sth.TreeHeadSignature))"})
+	check("VerifySCTSignature", []string{"DATA, err := SerializeSCTSignatureInput(sct, entry)", "if err != nil { return err }",
+		"return s.VerifySignature(DATA, tls.DigitallySigned(sct.Signature))"})
+	check("VerifySTHSignature", []string{"DATA, err := SerializeSTHSignatureInput(sth)", "if err != nil { return err }",
+		"return s.VerifySignature(DATA, tls.DigitallySigned(sth.TreeHeadSignature))"})
 	return "/-- generated from " + rel + ": VerifySCTSignature is `SerializeSCTSignatureInput(sct, entry)`, its error returned, then\n`VerifySignature(sctData, sct.Signature)` with the verifier's key -/\ndef sctVerifySerializesThenVerifies : Bool := true\n" +
 		"/-- generated from " + rel + ": VerifySTHSignature is `SerializeSTHSignatureInput(sth)`, its error returned, then\n`VerifySignature(sthData, sth.TreeHeadSignature)` with the verifier's key -/\ndef sthVerifySerializesThenVerifies : Bool := true\n"
 }
